@@ -154,6 +154,22 @@ def frozen_hash(cx, kind):
     cx.check(f1 == f2 and f1 is not f2 and h[0] == h[1], 'equal=>equal-hash')
     cx.check({f1: 'x'}.get(f2) == 'x' and {f2: 'y'}[f1] == 'y', 'dict-key')
     cx.check(f2 in {f1} and len({f1, f2}) == 1, 'set-member')
+    # equal messages that were BUILT DIFFERENTLY (decoded from bytes / text / a dict in another key order)
+    others = []
+    if type(m) is mido.Message:
+        others.append(mido.Message.from_bytes(m.bytes(), time=m.time))
+        others.append(mido.Message.from_str(str(m)))
+        d = m.dict()
+        others.append(mido.Message.from_dict(dict(reversed(list(d.items())))))
+        others.append(mido.parse_all(m.bytes())[0].copy(time=m.time))
+    elif kind not in ('sequencer_specific_default',):
+        x = mido.MetaMessage.from_bytes(m.bytes())
+        x.time = m.time
+        others.append(x)
+    for o in others:
+        fo = freeze_message(o)
+        if fo == f1:
+            cx.check(hash(fo) == h[0] and {f1: 1}.get(fo) == 1 and fo in {f1}, 'equal=>equal-hash')
     other = freeze_message(m.copy(time=m.time + 1))
     cx.check(not (other == f1) and other not in {f1: 1}, 'different-not-equal')
 
@@ -163,7 +179,7 @@ BOUNDS = {
              'attribute symbolic in its documented range: copy/freeze/thaw class and equality, None->None, one symbolic '
              'assignment on the copy and on the original (attribute chosen symbolically), every set/del on the frozen twin; '
              'copy(**overrides) with one integer attribute symbolic in [-2^40, 2^40], from the plain and from the frozen '
-             'message, against a fresh construction; hashing over the {min, mid, max} menu of every attribute',
+             'message, against a fresh construction; hashing over the {min, mid, max} menu of every attribute, incl. equal messages built along different paths (decoded from bytes, text, a reordered dict)',
     'thorough': 'overrides of two attributes at once',
 }
 OUTSIDE = 'override values that are not integers (copy(data=<int>) was a defect, fixed, see known_findings.json); hashing beyond the ' \
